@@ -380,4 +380,138 @@ theorem MSet.difference_spec0 {sh : Shuffle σ} (hsh : ShLaw sh) {s : MSet α} (
       (∀ x, x ∈ t.members ↔ x ∈ s.members ∧ ∀ u ∈ sets, x ∉ u.members) ∧ t.members.Sublist s.members :=
   diffLoop_spec0 hsh (t := s.clone) h sets g
 
+/-! ### SelectMatch / PartitionMatch -/
+
+theorem partitionLoop_spec0 (p : α → Bool) {t u : MSet α} (ht : WF0 t) (hu : WF0 u)
+    (ms : List α) (hnd : ms.Nodup) (hdt : ∀ m ∈ ms, m ∉ t.members) (hdu : ∀ m ∈ ms, m ∉ u.members) :
+    ∃ t' u', partitionLoop p t u ms = .ok (t', u') ∧ WF0 t' ∧ WF0 u' ∧ t'.impl = t.impl ∧ u'.impl = u.impl ∧
+      (∀ x, x ∈ t'.members ↔ x ∈ t.members ∨ (x ∈ ms ∧ p x = true)) ∧
+      (∀ x, x ∈ u'.members ↔ x ∈ u.members ∨ (x ∈ ms ∧ p x = false)) ∧
+      (t.impl.isSorted = false → ∃ ms', t'.members = t.members ++ ms' ∧ ms'.Sublist ms) ∧
+      (u.impl.isSorted = false → ∃ ms', u'.members = u.members ++ ms' ∧ ms'.Sublist ms) := by
+  induction ms generalizing t u with
+  | nil =>
+    exact ⟨t, u, rfl, ht, hu, rfl, rfl, by simp, by simp, fun _ => ⟨[], by simp, List.Sublist.refl _⟩,
+      fun _ => ⟨[], by simp, List.Sublist.refl _⟩⟩
+  | cons m ms ih =>
+    have hnd' := List.nodup_cons.1 hnd
+    cases hp : p m with
+    | true =>
+      have hmt : m ∉ t.members := hdt m (List.mem_cons_self ..)
+      obtain ⟨t₁, h₁, hw₁, hi₁, hm₁, _, _, happ⟩ := MSet.add1_spec0 ht m
+      obtain ⟨t', u', h', hwt', hwu', hit', hiu', hmt', hmu', hst', hsu'⟩ := ih hw₁ hu hnd'.2 (by
+        intro x hx
+        rw [hm₁]
+        rintro (rfl | hxt)
+        · exact hnd'.1 hx
+        · exact hdt x (List.mem_cons_of_mem _ hx) hxt) (fun x hx => hdu x (List.mem_cons_of_mem _ hx))
+      refine ⟨t', u', by simp [partitionLoop, hp, MSet.add_singleton, h₁, h'], hwt', hwu', hit'.trans hi₁, hiu',
+        fun x => ?_, fun x => ?_, fun hl => ?_, fun hl => ?_⟩
+      · rw [hmt', hm₁]; simp only [List.mem_cons]
+        constructor
+        · rintro ((rfl | h) | ⟨h, hpx⟩)
+          · exact .inr ⟨.inl rfl, hp⟩
+          · exact .inl h
+          · exact .inr ⟨.inr h, hpx⟩
+        · rintro (h | ⟨rfl | h, hpx⟩)
+          · exact .inl (.inr h)
+          · exact .inl (.inl rfl)
+          · exact .inr ⟨h, hpx⟩
+      · rw [hmu']; simp only [List.mem_cons]
+        constructor
+        · rintro (h | ⟨h, hpx⟩)
+          · exact .inl h
+          · exact .inr ⟨.inr h, hpx⟩
+        · rintro (h | ⟨rfl | h, hpx⟩)
+          · exact .inl h
+          · rw [hp] at hpx; cases hpx
+          · exact .inr ⟨h, hpx⟩
+      · obtain ⟨ms', he, hs⟩ := hst' (by rw [hi₁]; exact hl)
+        refine ⟨m :: ms', ?_, hs.cons_cons _⟩
+        rw [he, happ hmt hl]; simp
+      · obtain ⟨ms', he, hs⟩ := hsu' hl
+        exact ⟨ms', he, hs.cons _⟩
+    | false =>
+      have hmu : m ∉ u.members := hdu m (List.mem_cons_self ..)
+      obtain ⟨u₁, h₁, hw₁, hi₁, hm₁, _, _, happ⟩ := MSet.add1_spec0 hu m
+      obtain ⟨t', u', h', hwt', hwu', hit', hiu', hmt', hmu', hst', hsu'⟩ := ih ht hw₁ hnd'.2
+        (fun x hx => hdt x (List.mem_cons_of_mem _ hx)) (by
+        intro x hx
+        rw [hm₁]
+        rintro (rfl | hxt)
+        · exact hnd'.1 hx
+        · exact hdu x (List.mem_cons_of_mem _ hx) hxt)
+      refine ⟨t', u', by simp [partitionLoop, hp, MSet.add_singleton, h₁, h'], hwt', hwu', hit', hiu'.trans hi₁,
+        fun x => ?_, fun x => ?_, fun hl => ?_, fun hl => ?_⟩
+      · rw [hmt']; simp only [List.mem_cons]
+        constructor
+        · rintro (h | ⟨h, hpx⟩)
+          · exact .inl h
+          · exact .inr ⟨.inr h, hpx⟩
+        · rintro (h | ⟨rfl | h, hpx⟩)
+          · exact .inl h
+          · rw [hp] at hpx; cases hpx
+          · exact .inr ⟨h, hpx⟩
+      · rw [hmu', hm₁]; simp only [List.mem_cons]
+        constructor
+        · rintro ((rfl | h) | ⟨h, hpx⟩)
+          · exact .inr ⟨.inl rfl, hp⟩
+          · exact .inl h
+          · exact .inr ⟨.inr h, hpx⟩
+        · rintro (h | ⟨rfl | h, hpx⟩)
+          · exact .inl (.inr h)
+          · exact .inl (.inl rfl)
+          · exact .inr ⟨h, hpx⟩
+      · obtain ⟨ms', he, hs⟩ := hst' hl
+        exact ⟨ms', he, hs.cons _⟩
+      · obtain ⟨ms', he, hs⟩ := hsu' (by rw [hi₁]; exact hl)
+        refine ⟨m :: ms', ?_, hs.cons_cons _⟩
+        rw [he, happ hmu hl]; simp
+
+/-- `SelectMatch` is the first component of the `PartitionMatch` loop -/
+theorem selectLoop_eq (p : α → Bool) : ∀ (ms : List α) (t u : MSet α) (t' u' : MSet α),
+    partitionLoop p t u ms = .ok (t', u') → selectLoop p t ms = .ok t'
+  | [], t, u, t', u', h => by cases h; rfl
+  | m :: ms, t, u, t', u', h => by
+    simp only [partitionLoop] at h
+    cases hp : p m with
+    | true =>
+      simp only [hp, ↓reduceIte] at h
+      cases h₁ : t.add [m] with
+      | ok t₁ =>
+        simp only [h₁, ok_bind] at h
+        simp [selectLoop, hp, h₁, selectLoop_eq p ms t₁ u t' u' h]
+      | panic => simp [h₁] at h
+      | diverge => simp [h₁] at h
+    | false =>
+      simp only [hp, Bool.false_eq_true, ↓reduceIte] at h
+      cases h₁ : u.add [m] with
+      | ok u₁ =>
+        simp only [h₁, ok_bind] at h
+        simp [selectLoop, hp, selectLoop_eq p ms t u₁ t' u' h]
+      | panic => simp [h₁] at h
+      | diverge => simp [h₁] at h
+
+theorem wf0_cloneEmpty' {s : MSet α} (h : WF0 s) : WF0 s.cloneEmpty :=
+  ⟨by simp [MSet.cloneEmpty], by simp [MSet.cloneEmpty], h.law, fun c _ => by simp [MSet.cloneEmpty, SortedBy]⟩
+
+/-- `PartitionMatch`: two valid sets of the receiver's implementation, the members satisfying / not
+satisfying the predicate, for `set`/`stable` in the receiver's order; `SelectMatch` returns the first -/
+theorem MSet.partitionMatch_spec0 {s : MSet α} (h : WF0 s) (p : α → Bool) :
+    ∃ t u, s.partitionMatch p = .ok (t, u) ∧ s.selectMatch p = .ok t ∧ WF0 t ∧ WF0 u ∧
+      t.impl = s.impl ∧ u.impl = s.impl ∧
+      (∀ x, x ∈ t.members ↔ x ∈ s.members ∧ p x = true) ∧
+      (∀ x, x ∈ u.members ↔ x ∈ s.members ∧ p x = false) ∧
+      (s.impl.isSorted = false → t.members.Sublist s.members ∧ u.members.Sublist s.members) := by
+  obtain ⟨t, u, h₁, hwt, hwu, hit, hiu, hmt, hmu, hst, hsu⟩ :=
+    partitionLoop_spec0 p (wf0_cloneEmpty' h) (wf0_cloneEmpty' h) s.members h.nodup
+      (by simp [MSet.cloneEmpty]) (by simp [MSet.cloneEmpty])
+  refine ⟨t, u, h₁, selectLoop_eq p _ _ _ _ _ h₁, hwt, hwu, hit, hiu, ?_, ?_, fun hl => ⟨?_, ?_⟩⟩
+  · intro x; rw [hmt]; simp [MSet.cloneEmpty]
+  · intro x; rw [hmu]; simp [MSet.cloneEmpty]
+  · obtain ⟨ms', he, hs⟩ := hst hl
+    rw [he]; simpa [MSet.cloneEmpty] using hs
+  · obtain ⟨ms', he, hs⟩ := hsu hl
+    rw [he]; simpa [MSet.cloneEmpty] using hs
+
 end AlgoVerif.C16
